@@ -7,6 +7,7 @@ All theorems are about the definitions `Drivers/C06.lean` evaluates (`ckernel`,
 -/
 import FDAProofs.Lemmas.LocalPoly
 import FDAProofs.Lemmas.Gaussian
+import FDAModel.Generated.Kernels
 import Mathlib.Tactic.Positivity
 import Mathlib.Tactic.NormNum
 import Mathlib.Tactic.IntervalCases
@@ -653,6 +654,53 @@ theorem weights_scale_invariant (n p : ℕ) (hp : 0 < p) (w : ℕ → ℚ) (D : 
       intro i _; ring
     rw [e, e, hs a ha]
   rw [lpEstimate_eq_of_sol hp hv' hs', hβ]
+
+/-! ### Tie of the kernels to the current source (translator, regenerated on every run) -/
+
+set_option linter.unusedSimpArgs false in
+set_option linter.unusedTactic false in
+set_option linter.unreachableTactic false in
+/-- **Tie to the source.**  The kernels generated on every run from the *current*
+`local_polynomial.py` (support comparison, bound, polynomial expression, constants) are the model's
+kernels.  The proof tolerates either support convention where the value at the boundary is the same;
+any edit of a constant, an exponent, a sign or a bound that changes a value breaks it. -/
+theorem kernel_gen_eq_model :
+    FDA.Generated.epanechnikovGen = epanechnikov ∧ FDA.Generated.tricubeGen = tricube ∧ FDA.Generated.bisquareGen = bisquare := by
+  refine ⟨?_, ?_, ?_⟩ <;> funext u <;>
+    rcases lt_trichotomy |u| 1 with h | h | h
+  · simp only [FDA.Generated.epanechnikovGen, epanechnikov, h, h.le, if_true] <;> ring
+  · have hu : u ^ 2 = 1 := by rw [← sq_abs, h]; norm_num
+    simp [FDA.Generated.epanechnikovGen, epanechnikov, h, hu]
+  · simp [FDA.Generated.epanechnikovGen, epanechnikov, not_le.mpr h, not_lt.mpr h.le]
+  · simp only [FDA.Generated.tricubeGen, tricube, h, h.le, if_true] <;> ring
+  · simp [FDA.Generated.tricubeGen, tricube, h]
+  · simp [FDA.Generated.tricubeGen, tricube, not_le.mpr h, not_lt.mpr h.le]
+  · simp only [FDA.Generated.bisquareGen, bisquare, h, h.le, if_true] <;> ring
+  · have hu : u ^ 2 = 1 := by rw [← sq_abs, h]; norm_num
+    simp [FDA.Generated.bisquareGen, bisquare, h, hu]
+  · simp [FDA.Generated.bisquareGen, bisquare, not_le.mpr h, not_lt.mpr h.le]
+
+/-- The Gaussian of the source (its two constants) is the Gaussian the theorems are about. -/
+theorem gaussian_gen_eq_model (u : ℝ) :
+    Real.exp (-(u ^ 2) / (FDA.Generated.gaussExpDiv : ℝ)) / Real.sqrt ((FDA.Generated.gaussNormCoef : ℝ) * Real.pi) = gaussian u := by
+  unfold gaussian FDA.Generated.gaussExpDiv FDA.Generated.gaussNormCoef
+  norm_num
+
+/-- Hence the kernels *as the source has them now* are non-negative, even, vanish beyond one bandwidth,
+are positive inside and peak at the query point. -/
+theorem source_kernels_have_the_properties (u : ℚ) :
+    (0 ≤ FDA.Generated.epanechnikovGen u ∧ 0 ≤ FDA.Generated.tricubeGen u ∧ 0 ≤ FDA.Generated.bisquareGen u) ∧
+    (FDA.Generated.epanechnikovGen (-u) = FDA.Generated.epanechnikovGen u ∧ FDA.Generated.tricubeGen (-u) = FDA.Generated.tricubeGen u ∧ FDA.Generated.bisquareGen (-u) = FDA.Generated.bisquareGen u) ∧
+    (1 ≤ |u| → FDA.Generated.epanechnikovGen u = 0 ∧ FDA.Generated.tricubeGen u = 0 ∧ FDA.Generated.bisquareGen u = 0) ∧
+    (|u| < 1 → 0 < FDA.Generated.epanechnikovGen u ∧ 0 < FDA.Generated.tricubeGen u ∧ 0 < FDA.Generated.bisquareGen u) ∧
+    (FDA.Generated.epanechnikovGen u ≤ FDA.Generated.epanechnikovGen 0 ∧ FDA.Generated.tricubeGen u ≤ FDA.Generated.tricubeGen 0 ∧ FDA.Generated.bisquareGen u ≤ FDA.Generated.bisquareGen 0) := by
+  obtain ⟨e1, e2, e3⟩ := kernel_gen_eq_model
+  rw [e1, e2, e3]
+  exact ⟨⟨kernel_nonneg .epanechnikov u, kernel_nonneg .tricube u, kernel_nonneg .bisquare u⟩,
+    ⟨kernel_even .epanechnikov u, kernel_even .tricube u, kernel_even .bisquare u⟩,
+    fun h => ⟨kernel_support .epanechnikov u h, kernel_support .tricube u h, kernel_support .bisquare u h⟩,
+    fun h => ⟨kernel_pos_inside .epanechnikov u h, kernel_pos_inside .tricube u h, kernel_pos_inside .bisquare u h⟩,
+    ⟨kernel_le_peak .epanechnikov u, kernel_le_peak .tricube u, kernel_le_peak .bisquare u⟩⟩
 
 /-! ### Non-vacuity: the hypotheses of the theorems above are met by concrete data -/
 
